@@ -143,6 +143,16 @@ func withPath(err error, name string) error {
 	return err
 }
 
+// sameFS reports whether 'a' and 'b' are the same file system value
+func sameFS(a, b hackpadfs.FS) (same bool) {
+	defer func() {
+		if recover() != nil {
+			same = false // values of this type cannot be compared
+		}
+	}()
+	return a == b
+}
+
 // renameErr returns 'err' as a rename *LinkError in terms of the caller's names, nil if 'err' is nil.
 func renameErr(err error, oldname, newname string) error {
 	switch e := err.(type) {
@@ -190,7 +200,8 @@ func (fs *FS) Rename(oldname, newname string) error {
 		return &hackpadfs.LinkError{Op: "rename", Old: oldname, New: newname, Err: hackpadfs.ErrExist}
 	}
 
-	if oldPoint == newPoint {
+	if oldPoint == newPoint || sameFS(oldMount, newMount) {
+		// one file system, even if it is mounted at two points: it moves the file itself (a copy would truncate its own source)
 		return renameErr(hackpadfs.Rename(oldMount, oldSubPath, newSubPath), oldname, newname)
 	}
 	if oldInfo.IsDir() {
